@@ -1,24 +1,25 @@
 (* Model-side driver: reads the same scripts as the C drivers and prints the
    same observation lines, evaluating the definitions extracted from Coq. *)
+module ZA = Z   (* zarith, before Model's own Z module shadows it *)
 open Model
 
 (* ---------- conversions ---------- *)
 let rec nat_of_int (i : int) : nat = if i <= 0 then O else S (nat_of_int (i - 1))
 let rec int_of_nat (n : nat) : int = match n with O -> 0 | S m -> 1 + int_of_nat m
 
-let rec pos_of_z (z : Z.t) : positive =
-  if Z.equal z Z.one then XH
-  else if Z.is_even z then XO (pos_of_z (Z.shift_right z 1))
-  else XI (pos_of_z (Z.shift_right z 1))
-let rec z_of_pos (p : positive) : Z.t =
+let rec pos_of_z (z : ZA.t) : positive =
+  if ZA.equal z ZA.one then XH
+  else if ZA.is_even z then XO (pos_of_z (ZA.shift_right z 1))
+  else XI (pos_of_z (ZA.shift_right z 1))
+let rec z_of_pos (p : positive) : ZA.t =
   match p with
-  | XH -> Z.one
-  | XO q -> Z.shift_left (z_of_pos q) 1
-  | XI q -> Z.succ (Z.shift_left (z_of_pos q) 1)
-let n_of_z (z : Z.t) : n = if Z.sign z <= 0 then N0 else Npos (pos_of_z z)
-let z_of_n (x : n) : Z.t = match x with N0 -> Z.zero | Npos p -> z_of_pos p
-let n_of_string s = n_of_z (Z.of_string s)
-let string_of_n x = Z.to_string (z_of_n x)
+  | XH -> ZA.one
+  | XO q -> ZA.shift_left (z_of_pos q) 1
+  | XI q -> ZA.succ (ZA.shift_left (z_of_pos q) 1)
+let n_of_z (z : ZA.t) : n = if ZA.sign z <= 0 then N0 else Npos (pos_of_z z)
+let z_of_n (x : n) : ZA.t = match x with N0 -> ZA.zero | Npos p -> z_of_pos p
+let n_of_string s = n_of_z (ZA.of_string s)
+let string_of_n x = ZA.to_string (z_of_n x)
 
 let chars_of_string (s : string) : char list = List.init (String.length s) (String.get s)
 let string_of_chars (l : char list) : string =
@@ -74,7 +75,62 @@ let drv_set () =
         bops := []
     | _ -> failwith ("set: bad line: " ^ String.concat " " toks))
 
+(* ---------- linq driver ---------- *)
+let z_of_int i = ZA.of_int i
+let coqz_of_z (z : ZA.t) : Model.z =
+  if ZA.sign z = 0 then Z0 else if ZA.sign z > 0 then Zpos (pos_of_z z) else Zneg (pos_of_z (ZA.neg z))
+let z_of_coqz (x : Model.z) : ZA.t =
+  match x with Z0 -> ZA.zero | Zpos p -> z_of_pos p | Zneg p -> ZA.neg (z_of_pos p)
+let coqz_of_string s = coqz_of_z (ZA.of_string s)
+let string_of_coqz x = ZA.to_string (z_of_coqz x)
+
+let clock0 = coqz_of_z (ZA.of_int 1000000)
+
+let drv_linq () =
+  let st = ref (linit Z0 O clock0) in
+  let step o =
+    let (s', outs) = lstep !st o in
+    st := s';
+    List.iter (fun o ->
+      match o with
+      | OPush PushOk -> print_endline "push ok"
+      | OPush _ -> print_endline "push err"
+      | OHead (HPause w) -> Printf.printf "head pause %s\n" (string_of_coqz w)
+      | OHead (HReady (p, m)) -> Printf.printf "head ready %s %s\n" (tok_str p) (string_of_n m)
+      | OHead HErr -> print_endline "head err"
+      | OPop PopOk -> print_endline "pop ok"
+      | OPop PopAbort -> print_endline "pop abort"
+      | OPop PopErr -> print_endline "pop err") outs in
+  iter_lines (fun toks ->
+    match toks with
+    | "case" :: _ -> print_endline (String.concat " " toks); st := linit Z0 O clock0
+    | "lq_load" :: deb :: g :: _ ->
+        st := linit (coqz_of_string deb) (nat_of_int (int_of_string g)) clock0;
+        print_endline "load ok"
+    | ["lq_reload"; g] -> step (LReload (nat_of_int (int_of_string g)))
+    | ["lq_push"; p; m] -> step (LPush (str_tok p, n_of_string m))
+    | ["lq_head"] -> step LHead
+    | ["lq_pop"] -> step LPop
+    | ["lq_redeb"; d] -> step (LRedeb (coqz_of_string d))
+    | ["lq_tick"; n] -> step (LTick (coqz_of_string n))
+    | ["lq_drain"] ->
+        let s0 = !st in
+        let ((outs, w), l') = drain_all s0.ls_now s0.ls_q in
+        st := { s0 with ls_q = l' };
+        List.iter (fun (p, m) -> Printf.printf "stored %s %s\n" (tok_str p) (string_of_n m)) outs;
+        (match w with
+         | Z0 -> print_endline "drain err"
+         | _ -> Printf.printf "drain pause %s\n" (string_of_coqz w))
+    | ["lq_dump"] ->
+        let d = (!st).ls_q.l_dir in
+        Printf.printf "dump %d" (List.length d);
+        List.iter (fun (name, (tgt, mt)) ->
+          Printf.printf " %s:%s:%s" (string_of_n name) (tok_str tgt) (string_of_coqz mt)) d;
+        print_newline ()
+    | _ -> failwith ("linq: bad line: " ^ String.concat " " toks))
+
 let () =
   match Sys.argv with
   | [| _; "set" |] -> drv_set ()
+  | [| _; "linq" |] -> drv_linq ()
   | _ -> prerr_endline "usage: modeldrv <driver>"; exit 2
